@@ -160,6 +160,15 @@ class Unit:
                 if n:
                     text = text.replace(frm, pad_nl(frm, to))
                     out.count('R8', n)
+        # R17: a by-value `mut self` receiver (not supported by Verus) becomes `self` plus a mutable local `this` that the body uses
+        m = re.match(r'(\s*(?:pub(?:\([^)]*\))?\s+)?fn\s+\w+\s*(?:<[^{;]*?>)?\s*\(\s*)mut\s+self\b', text, re.S)
+        if m:
+            bo_, _, _ = rx.fn_signature_parts(text)
+            if bo_ is not None:
+                head = text[:bo_].replace(m.group(0), m.group(1) + 'self', 1)
+                body = re.sub(r'\bself\b', 'this', text[bo_ + 1:])
+                text = head + '{ let mut this = self;' + body
+                out.count('R17', 1)
         for sc, lit in self.absent:
             if (sc == '*' or sc == scope or (sc.endswith('*') and scope.startswith(sc[:-1]))) and lit in text:
                 raise Undecided('lost anchor: call-site substitution pattern no longer matches in %s (still contains %r)' % (scope, lit))
